@@ -126,7 +126,7 @@ fn rule_variants(name: &str, kind: RuleKind, k: usize) -> Vec<String> {
 
 pub fn run(ctx: &mut Ctx) {
     let fs = ctx.first_shard();
-    ctx.rule = "sweep: every rule of public_suffix_list.dat (A-label form) as itself, with 1-3 labels prepended, with its leading label removed and replaced; random: 1-8 labels from the list's label vocabulary and fresh labels, optionally on top of a list rule; structural: arbitrary strings (ASCII/Unicode/empty labels/long/mixed case). Non-trivial = canonical name whose prevailing rule is not the implicit '*'; distinct by name.".into();
+    ctx.rule = "sweep: every rule of public_suffix_list.dat (A-label form) as itself, with 1-3 labels prepended, with its leading label removed and replaced, and with each of the list's most frequent labels (48 in the quick tier, all that occur twice in the thorough tier) placed directly below it; random: 1-8 labels from the list's label vocabulary and fresh labels, optionally on top of a list rule; structural: arbitrary strings (ASCII/Unicode/empty labels/long/mixed case). Non-trivial = canonical name whose prevailing rule is not the implicit '*'; distinct by name.".into();
     ctx.assumptions = vec![
         "agreement with the reference is asserted for every name without empty labels; the reference matches labels literally against the list's A-label rules (so upper-case or Unicode labels match no rule, exactly like in a byte-wise table lookup); strings with empty labels get the structural checks only".into(),
         "the reference converts Unicode rules of the .dat with the idna crate (UTS-46 to-ASCII)".into(),
@@ -176,6 +176,45 @@ pub fn run(ctx: &mut Ctx) {
         }
     }
     ctx.note("sweep_exhaustive_over_rules", json!(true));
+
+    // ---- stage 1b: every rule with each of the list's most frequent labels put directly below it ("x.<label>.<rule>"):
+    // a label that is not a child of that rule in the list must not be treated as one (the table stores the children
+    // of different parents next to each other)
+    {
+        let mut freq: std::collections::HashMap<&str, usize> = std::collections::HashMap::new();
+        for r in &psl.rules {
+            for l in r.name.split('.') {
+                *freq.entry(l).or_default() += 1;
+            }
+        }
+        let mut labels: Vec<(&str, usize)> = freq.into_iter().filter(|(_, n)| *n >= 2).collect();
+        labels.sort_by(|a, b| b.1.cmp(&a.1).then(a.0.cmp(b.0)));
+        let top = ctx.tier.pick(48usize, 100_000usize).min(labels.len());
+        ctx.note("frequent_labels_swept_below_every_rule", json!(top));
+        let shards = std::env::var("VERIF_SHARDS").ok().and_then(|s| s.parse::<usize>().ok()).unwrap_or(1).max(1);
+        let shard = std::env::var("VERIF_SHARD").ok().and_then(|s| s.parse::<usize>().ok()).unwrap_or(0);
+        'below: for (k, r) in psl.rules.iter().enumerate() {
+            if k % shards != shard {
+                continue;
+            }
+            for (l, _) in labels.iter().take(top) {
+                let d = format!("x.{l}.{}", r.name);
+                ctx.eval();
+                match check_canonical(&psl, &d) {
+                    Ok(p) => {
+                        ctx.class(&format!("below-rule/{}", prevailing_name(p)));
+                        if p != Prevailing::Implicit {
+                            ctx.nontrivial(&d);
+                        }
+                    }
+                    Err(e) => {
+                        ctx.violation("sweep-below", json!({"name": d}), &e);
+                        break 'below;
+                    }
+                }
+            }
+        }
+    }
 
     // ---- stage 2: random canonical names
     let mut vocab: Vec<String> = psl.rules.iter().flat_map(|r| r.name.split('.').map(|s| s.to_string()).collect::<Vec<_>>()).collect();
